@@ -283,14 +283,14 @@ func faultsOnce(line string) (res string) {
 				if n == 0 {
 					continue
 				}
-				if _, e := f.Write(rest[:n]); e != nil && firstW == nil {
+				if _, e := writeScratch(f, rest[:n]); e != nil && firstW == nil {
 					firstW = e
 				}
 				rest = rest[n:]
 			}
 		}
 		if len(rest) > 0 {
-			if _, e := f.Write(rest); e != nil && firstW == nil {
+			if _, e := writeScratch(f, rest); e != nil && firstW == nil {
 				firstW = e
 			}
 		}
